@@ -325,6 +325,7 @@ class History:
                 if rng.random() < 0.2:
                     # more members than the form sends: names of other columns of the stream table
                     extra = rng.choice([
+                        {'defaults': 'abc'}, {'defaults': [1, 2]},
                         {'timing_ref': {'media_name': 'ghost', 'media_duration': 9600, 'num_media_segments': 10,
                                         'segment_duration': 960, 'timescale': 240}},
                         {'pk': rng.choice(streams)['pk'] if streams else 1},
@@ -399,6 +400,8 @@ class History:
                 periods.append({'pid': f'p{i + 1}', 'stream_pk': s['pk'], 'start': rng.choice(['PT0S', 'PT4S', 'PT8S']),
                                 'duration': rng.choice(['PT8S', 'PT16S', 'PT20S']), 'tracks': rng.choice([[1], [1, 2], [1, 2, 4]])})
             name = rng.choice(['mpsA', 'mpsB', f'mps{tag}'])
+            if rng.random() < 0.06:
+                periods = []            # a multi-period stream without any period
             return G.op_add_mps(name, f'MPS {name}', periods)
         if kind == 'edit-mps':
             m = rng.choice(mps)
